@@ -10,7 +10,7 @@ RULE = (
     "alphabet (f8; and over 5 integers as i8) x {no weights, weights cyclic over {1,2,.5} at "
     "two shifts} x {no second variable, second variable} (shift 2 with a second variable only among the "
     "secondary entries) x binning {binsize .1,.3,.5,1,2.5 | "
-    "nbin 1,2,3,5} x min {None,-1,.5,1} x max {None,1,2,3.7} x entry {Binner.dohist(rev=True), "
+    "nbin 1,2,3,5} x min {None,-1,0,.5,1} x max {None,1,2,3.7} x entry {Binner.dohist(rev=True), "
     "histogram(more=True), histogram(weights=)}; the secondary entries (dohist without rev, "
     "dohist(calc_stats=False)+calc_stats(), histogram(weights=,more=True)), the pure-python "
     "histogram engine and seed-chosen generic weights / second variable on every tuple of "
@@ -53,7 +53,7 @@ W = [1.0, 2.0, 0.5]
 Y = [10.0, -3.0, 4.0]
 BINNING = [("binsize", 0.5), ("binsize", 1.0), ("binsize", 0.3), ("binsize", 2.5),
            ("binsize", 0.1), ("nbin", 1), ("nbin", 2), ("nbin", 3), ("nbin", 5)]
-MINS = [None, -1.0, 0.5, 1.0]
+MINS = [None, -1.0, 0.0, 0.5, 1.0]
 MAXS = [None, 1.0, 2.0, 3.7]
 NLIMITS = [(None, None), (0.0, 2.0), (0.5, None)]
 SENT = -9999.0
